@@ -688,6 +688,49 @@ Section Generic.
     | CDone | CWaitBearer => cl_spk c
     | _ => None
     end.
+
+  (* ---- ClientPeerIDAuth.AuthenticateWithRoundTripper without a stored token, and
+          runHandshake (auth/client.go) ------------------------------------------------ *)
+  (* one scripted response of the other side *)
+  Record resp := mkResp { r_tbl : vtable; r_www : bytes; r_info : bytes }.
+
+  Definition is_done (c : client) : bool := match cl_state c with CDone => true | _ => false end.
+  Definition is_auth (c : client) : bool :=
+    match client_peer c with Some _ => true | None => false end.
+
+  (* the loop  for !hs.HandshakeDone() || !sentBody  with its budget of 5 round trips.
+     Result: the reported id (None = an error is returned) and the Authorization
+     headers of the requests sent, in order; outer None = the table of a response
+     does not describe one of its values.  One element of [fresh] per Run call. *)
+  Fixpoint handshake_loop (steps : nat) (c : client) (sent : bool) (resps : list resp)
+           (fresh : list N) (reqs : list ohdr) : option (option N * list ohdr) :=
+    if is_done c && sent then Some (client_peer c, rev reqs)
+    else
+      match steps with
+      | O => Some (None, rev reqs)                       (* "handshake took too many steps" *)
+      | S k =>
+          let sent' := sent || is_auth c in
+          let reqs' := cl_out c :: reqs in
+          match resps, fresh with
+          | r :: rs, f :: fs =>
+              match client_parse c (r_tbl r) (r_www r) (r_info r) with
+              | None => None
+              | Some (c1, _) =>                          (* ParseHeader's error is not looked at *)
+                  let '(c2, ok) := client_run c1 f in
+                  if ok then handshake_loop k c2 sent' rs fs reqs' else Some (None, rev reqs')
+              end
+          | _, _ => Some (None, rev reqs')               (* no response: transport error *)
+          end
+      end.
+
+  Definition auth_do (key host : N) (resps : list resp) (fresh : list N)
+    : option (option N * list ohdr) :=
+    match fresh with
+    | f0 :: fs =>
+        let '(c, ok) := client_run (client_set_initiate (client_init key host)) f0 in
+        if ok then handshake_loop 5 c false resps fs [] else Some (None, [])
+    | [] => None
+    end.
 End Generic.
 
 (* ---- the instance: ideal signatures and MAC of the term algebra ------------------ *)
@@ -695,3 +738,4 @@ Definition server_step_i := server_step sym_verify sym_mac_check.
 Definition server_run_i := server_run sym_verify sym_mac_check.
 Definition client_parse_i := client_parse.
 Definition client_run_i := client_run sym_verify.
+Definition auth_do_i := auth_do sym_verify.
